@@ -284,6 +284,18 @@ func (u *Unit) external(st *State, fr *Frame, in *ssa.Call, fn *ssa.Function, ar
 		case "sort.SliceStable", "sort.Slice", "sort.Sort", "sort.Stable", "sort.Strings", "sort.Ints":
 			// the elements are permuted: their order is unknown afterwards
 			// (A-SORT: nothing else is written; the comparison function is pure)
+			a0 := args[0]
+			if iv, ok := a0.(IfaceV); ok && iv.V != nil {
+				a0 = iv.V
+			}
+			if sv, ok := a0.(SliceV); ok && sv.List != nil && sv.List.Sym && !sv.List.New && u.specMode == 0 {
+				// sorting a list that existed before the call writes it
+				st.written = true
+				if u.Cfg.FrameCheck {
+					u.check(st, u.oblName(fr.fn, "frame", "sort of a list that existed before the call"), "frame", Le(sv.Len, IntLit(1)), "store into memory that existed before the call")
+				}
+			}
+			u.StoresSeen++
 			u.havocReachable(st, args[:1])
 			u.Assumed["A-SORT: sort.* permutes the elements of its argument and writes nothing else"]++
 			return nil, true
